@@ -6,6 +6,7 @@ f10_0:
   call f4_0
   call f8_0
   lea d_f10_0(%rip),%rax
+  mov wvsv1@GOTPCREL(%rip),%rax
   ret
 .section .data.d_f10_0,"aw",@progbits
 .globl d_f10_0
